@@ -1,4 +1,4 @@
-import Varpulis.Lemmas.SaseMulti
+import Varpulis.Lemmas.SaseMulti2
 /-!
 # C03 — Kleene closures report every admissible combination, up to the documented caps
 
@@ -215,6 +215,80 @@ example :
     ((((emittedAll (compile (midSteps none (some p) none)) { maxRuns := 4, lim := ⟨20, 10000⟩ } evs).getD []).getLastD []).map
       fun g => g.map fun m => m.enum.map (·.2)) =
         [[some [2], some [1], some [1, 2], some [0], some [0, 2]], [some [1], some [0], some [0, 1]]] := by
+  decide
+
+/-- **several completions.** `A -> all B -> C` on an *arbitrary* stream — A, B, C and other events in any order, so C events
+interleaved with new A events — all started runs fitting under `max_runs` (no backpressure).  The output is, event by event
+and up to the `swap_remove` permutation inside one event (`EachPerm`), `specRun`: a non-C event reports nothing, advances
+every open run on its own (`Open.adv`: a B is kept iff it passes that run's eager filter and its cap) and may open a run; a C
+event reports the concatenation, over the runs open at that moment, of each run's own report (`ownReport`, the expression
+of the single-run theorems: all its accumulated B events / its own admissible subsets) and removes exactly the runs that
+complete (`survives`: a run without a kept B, or whose C filter fails, stays open unchanged). -/
+theorem kleene_completions_independent (pa pb pc : Option Pred) (cfg : Cfg) (es : List Ev)
+    (hp : cfg.partitioned = false) (hk : 1 ≤ cfg.lim.maxEvents)
+    (hcap : (es.filter (accepts pa)).length ≤ cfg.maxRuns) :
+    ∃ outs, emittedAll (compile (midSteps pa pb pc)) cfg es = some outs ∧
+      EachPerm outs (specRun pa (eagerOf pb) (postOf pb) pc cfg.lim [] 0 es) := by
+  rw [compile_mid]
+  exact emitted_mid_stream pa (eagerOf pb) (postOf pb) pc cfg es hp hk hcap
+
+/-- non-vacuity: two completions; the run opened by the second A is not affected by the first completion and reports
+only its own B events (`x > b.x`: B.x = 1, 2 | 3, 4 → 3 admissible subsets each) -/
+example :
+    let p : Pred := .cmpRef 0 .gt 1 0
+    let ev (i t : Nat) (x : Int) : Ev := { id := i, ty := t, x := some x, y := none }
+    let evs := [ev 0 0 0, ev 1 1 1, ev 2 1 2, ev 3 2 0, ev 4 0 0, ev 5 1 3, ev 6 1 4, ev 7 2 0]
+    ((emittedAll (compile (midSteps none (some p) none)) { maxRuns := 4, lim := ⟨20, 10000⟩ } evs).getD []).map
+      (fun e => e.map fun g => g.map fun m => (m.stack.map (·.ev.id), m.enum.map (·.2))) =
+      [[], [], [], [[([0, 1, 2, 3], some [1]), ([0, 1, 2, 3], some [0]), ([0, 1, 2, 3], some [0, 1])]],
+       [], [], [], [[([4, 5, 6, 7], some [1]), ([4, 5, 6, 7], some [0]), ([4, 5, 6, 7], some [0, 1])]]] := by
+  decide
+
+/-! ### backpressure: eviction / dropping never alters a surviving run -/
+
+/-- For **every** backpressure strategy (Drop, Error, EvictOldest, EvictLeastProgress, Sample) and every `max_runs`,
+on an arbitrary stream: processing returns normally, nothing is reported at non-C events, and every group reported at a C
+is (up to order) the own report `ownReport` of a run that is open at that C in the *backpressure-free* run of the same
+stream (`subSpec`; the reference opens follow `specStep`) — its own accumulated B events / its own admissible subsets, never
+a mixture with an evicted or dropped run's capture.
+Not characterised here (strategy specific, covered by the C05 correspondence only): *which* runs are evicted or dropped,
+i.e. which of the reference runs are still present. -/
+theorem kleene_runs_isolated_under_backpressure (pa pb pc : Option Pred) (cfg : Cfg) (es : List Ev)
+    (hp : cfg.partitioned = false) (hk : 1 ≤ cfg.lim.maxEvents) :
+    ∃ outs, emittedAll (compile (midSteps pa pb pc)) cfg es = some outs ∧
+      subSpec pa (eagerOf pb) (postOf pb) pc cfg.lim outs [] 0 es := by
+  rw [compile_mid]
+  exact emitted_mid_bp pa (eagerOf pb) (postOf pb) pc cfg es hp hk
+
+/-- non-vacuity: `max_runs = 1`, EvictOldest: the run of the first A (which had kept B(1)) is evicted by the second A; the
+completion reports only the second run's own closure B(2), B(3) — B(1) does not leak into it -/
+example :
+    let p : Pred := .cmpRef 0 .gt 1 0
+    let ev (i t : Nat) (x : Int) : Ev := { id := i, ty := t, x := some x, y := none }
+    let evs := [ev 0 0 0, ev 1 1 1, ev 2 0 0, ev 3 1 2, ev 4 1 3, ev 5 2 0]
+    ((emittedAll (compile (midSteps none (some p) none)) { maxRuns := 1, lim := ⟨20, 10000⟩, strat := .evictOldest } evs).getD []).map
+      (fun e => e.map fun g => g.map fun m => (m.stack.map (·.ev.id), m.enum.map (·.2))) =
+      [[], [], [], [], [], [[([2, 3, 4, 5], some [1]), ([2, 3, 4, 5], some [0]), ([2, 3, 4, 5], some [0, 1])]]] := by
+  decide
+
+/-! ### patterns that *start* with `all` (outside C03's pattern shape, recorded) -/
+
+/-- `try_start_run_shared` creates no `KleeneCapture`, so for a pattern whose **first** step is `all` the start event is on
+the run's stack but never enters the capture: with `all A where x > a.x as a -> B` and A.x = 1, 2, 3 the run holds three A
+events, its capture only the last two, and the completion enumerates the 3 non-empty chains over {A(2), A(3)} instead of the
+7 admissible subsets of {A(1), A(2), A(3)} — no reported combination contains the start event.
+C03's statement and quantifier fix the shape `A -> all B [-> C]` (closure preceded by a plain step), so this is not a C03
+violation; it concerns completeness of leading closures, which no property of the list states (C01 is about genuineness of
+what *is* reported). Recorded for the maintainers / C01 owner. -/
+theorem leading_all_drops_first_event :
+    let steps : List Step := [{ ty := 0, alias := some 0, kleene := true, pred := some (.cmpRef 0 .gt 0 0) }, { ty := 1, alias := some 1 }]
+    let ev (i t : Nat) (x : Int) : Ev := { id := i, ty := t, x := some x, y := none }
+    let cfg : Cfg := { maxRuns := 1, lim := ⟨20, 10000⟩ }
+    (runAll (compile steps) cfg {} [ev 0 0 1, ev 1 0 2, ev 2 0 3]).map
+        (fun r => r.1.runs.map fun x => (x.stack.map (·.ev.id), x.kc.map (·.events.map (·.id)))) = some [([0, 1, 2], some [1, 2])] ∧
+    ((emittedAll (compile steps) cfg [ev 0 0 1, ev 1 0 2, ev 2 0 3, ev 3 1 0]).getD []).map
+        (fun e => e.map fun g => g.map fun m => m.enum.map (·.2)) = [[], [], [], [[some [1], some [0], some [0, 1]]]] ∧
+    (Spec.expectedSets (.cmpRef 0 .gt 0 0) (some 0) [] [ev 0 0 1, ev 1 0 2, ev 2 0 3] 10000).length = 7 := by
   decide
 
 /-! ### patterns whose last step is `all` (consistent filter) -/
